@@ -271,8 +271,11 @@ def lookup_key_is_canonical(ctx, rid):
     r.paths(rid, len(paths))
     n = 0
     for path in paths:
-        for k, v in path.decisions:
-            if "and_then(" in k or "HashMap" in k and "::get(" in k:
+        keys = [k for k, v in path.decisions]
+        if path.ret is not None:
+            keys.append(vkey(path.ret))
+        for k in keys:
+            if "and_then(" in k or "::get(" in k and "HashMap" in k:
                 n += 1
                 ok = "canonicalize_path_string(" in k
                 r.instance(rid, "file_range_matches lookup key", "ok" if ok else "violation", "%s:%d" % (f.file, f.line), short(k)[:90])
